@@ -570,6 +570,29 @@ fn run_mint(c: &[i128]) -> (Vec<i128>, Vec<i128>) {
                 Ok(_) => s.push(0),
                 Err(e) => s.extend([1, sf_code(e)]),
             }
+            // validation against expectations taken from the REFERENCE's reading of the same image: must pass; with the
+            // opposite freeze-authority expectation it must fail (judged by the predicate only)
+            s.push(7777);
+            match rtok::state::Mint::unpack(&data) {
+                Ok(rm) if own => {
+                    let ma: Option<Pubkey> = rm.mint_authority.into();
+                    let fa: Option<Pubkey> = rm.freeze_authority.into();
+                    let other = Pubkey::new_from_array([0x5A; 32]);
+                    let expect = sfstate::ValidateMint {
+                        decimals: Some(rm.decimals),
+                        authority: ma.as_ref(),
+                        freeze_authority: match &fa { Some(k) => sfstate::FreezeAuthority::Some(k), None => sfstate::FreezeAuthority::None },
+                    };
+                    s.push(match m.validate_mint(expect) { Ok(()) => 0, Err(_) => 1 });
+                    let opposite = sfstate::ValidateMint {
+                        decimals: None,
+                        authority: None,
+                        freeze_authority: match &fa { Some(_) => sfstate::FreezeAuthority::None, None => sfstate::FreezeAuthority::Some(&other) },
+                    };
+                    s.push(match m.validate_mint(opposite) { Ok(()) => 0, Err(_) => 1 });
+                }
+                _ => s.extend([9, 9]),
+            }
         }
     }
     let mut r = vec![];
